@@ -5,7 +5,7 @@ namespace Bclv
 section
 variable {σ : Type} (P : LexPrims σ) (hic : ∀ s, P.current (P.ignore s) = [])
 
-macro "gle" : tactic => `(tactic| (
+macro "glel" : tactic => `(tactic| (
   (try simp only [l_backup, l_unbackup, l_ignore, l_peekR, l_accept, l_acceptRun, l_identLoop, l_quoteLoop, *])
   first
     | exact fun _ h => h
@@ -13,10 +13,10 @@ macro "gle" : tactic => `(tactic| (
 
 set_option hygiene false in
 macro "tlr" : tactic => `(tactic| first
-  | exact TLR.emit P _ l _ (TLR.setS l _ (by gle))
-  | exact TLR.fail P hic _ l _ (TLR.setS l _ (by gle))
-  | exact TLR.invalid P hic l _ (TLR.setS l _ (by gle))
-  | exact TLR.setS l _ (by gle))
+  | exact TLR.emit P _ l _ (TLR.setS l _ (by glel))
+  | exact TLR.fail P hic _ l _ (TLR.setS l _ (by glel))
+  | exact TLR.invalid P hic l _ (TLR.setS l _ (by glel))
+  | exact TLR.setS l _ (by glel))
 
 include hic
 
